@@ -63,13 +63,16 @@ void parallel_for_dynamicMultiGroupImpl(
   size_t blockBytes =
       detail::alignToCacheLine(sizeof(GroupBlock)) + sizeof(GroupRange) * effectiveGroups;
 
-  // Both the wait and no-wait paths heap-own the block; the last worker to
-  // finish frees it. A thread-local buffer-reuse optimization for the wait
-  // path was intentionally not used here: it is unsafe under nested multi-group
-  // parallel_for on the same thread.
+  // Both the wait and no-wait paths heap-own the block. It is owned jointly by
+  // the worker closures and freed when the last of them is destroyed, so it is
+  // also released when a worker throws or is skipped by a cancelled task set
+  // and never reaches its exit increment. A thread-local buffer-reuse
+  // optimization for the wait path was intentionally not used here: it is
+  // unsafe under nested multi-group parallel_for on the same thread.
   void* blockMem = detail::alignedMalloc(blockBytes, kCacheLineSize);
 
   auto* block = new (blockMem) GroupBlock{};
+  std::shared_ptr<GroupBlock> blockOwner(block, [](GroupBlock* b) { detail::alignedFree(b); });
   block->numGroups = effectiveGroups;
   block->totalWorkers = totalWorkers;
   block->heapOwned = true;
@@ -89,15 +92,12 @@ void parallel_for_dynamicMultiGroupImpl(
     chunkOffset += gc;
   }
 
-  auto worker = [start, end, block, f, chunkSize, numChunks, exitAction](auto& s, size_t groupIdx) {
+  auto worker = [start, end, blockOwner, f, chunkSize, numChunks, exitAction](
+                    auto& s, size_t groupIdx) {
     auto recurseInfo = detail::PerPoolPerThreadInfo::parForRecurse();
+    GroupBlock* block = blockOwner.get();
     auto& gr = block->ranges()[groupIdx];
-    // Snapshot block-owned metadata BEFORE the release increment below.
-    // Once a worker performs exitCounter.fetch_add, the worker that
-    // observes the final count frees `block`, so `block` must not be
-    // dereferenced afterwards.
     const size_t totalWorkersLocal = block->totalWorkers;
-    const bool owned = block->heapOwned;
     while (true) {
       auto cur = gr.index.fetch_add(1, std::memory_order_relaxed);
       if (cur >= gr.numGroupChunks) {
@@ -112,14 +112,11 @@ void parallel_for_dynamicMultiGroupImpl(
         f(s, sidx, static_cast<IntegerT>(sidx + chunkSize));
       }
     }
-    // The acq_rel increment orders every worker's prior block accesses
-    // before the last worker's free.
+    // The acq_rel increment orders every worker's prior work before the
+    // last worker's exit action.
     auto prev = block->exitCounter.fetch_add(1, std::memory_order_acq_rel);
     if (prev + 1 == totalWorkersLocal) {
       exitAction(numChunks + static_cast<decltype(numChunks)>(totalWorkersLocal) - 1);
-      if (owned) {
-        detail::alignedFree(block);
-      }
     }
   };
 
@@ -154,8 +151,9 @@ void parallel_for_dynamicMultiGroupImpl(
 // is equivalent to the original single-atomic approach.
 //
 // The ExitAction callback is invoked when a worker finds no more chunks;
-// this allows the no-wait path to deallocate heap state when the last
-// worker exits, while the wait path passes a no-op.
+// this allows the no-wait path to run the granularity tail on the last
+// worker to exit (and carries the ownership of its heap state), while the
+// wait path passes a no-op.
 template <
     typename TaskSetT,
     typename IntegerT,
@@ -261,6 +259,11 @@ void parallel_for_dynamicNoWaitDispatch(
   static_assert(sizeof(ChunkIndex) <= kCacheLineSize, "ChunkIndex must fit in one cache line");
   char* mem = allocSmallBuffer<kCacheLineSize>();
   auto* ci = new (mem) ChunkIndex{{0}};
+  // Owned jointly by the worker closures (through the exit action they carry) and released when
+  // the last of them is destroyed, so the block is also returned when a worker throws or is
+  // skipped by a cancelled task set and the last exit index is never drawn.
+  std::shared_ptr<ChunkIndex> ciOwner(
+      ci, [](ChunkIndex* p) { deallocSmallBuffer<kCacheLineSize>(p); });
   SizeType lastExit = numChunks + static_cast<SizeType>(numToLaunch) - 1;
   IntegerT tailStart = parRange.end;
   IntegerT tailEnd = fullEnd;
@@ -279,13 +282,12 @@ void parallel_for_dynamicNoWaitDispatch(
       chunkSize,
       numChunks,
       ci->index,
-      [ci, lastExit, tailFunc = std::move(tailFunc), &tailState, tailStart, tailEnd, tailNeeded](
+      [ciOwner, lastExit, tailFunc = std::move(tailFunc), &tailState, tailStart, tailEnd, tailNeeded](
           auto cur) {
         if (cur == lastExit) {
           if (tailNeeded) {
             tailFunc(tailState, tailStart, tailEnd);
           }
-          deallocSmallBuffer<kCacheLineSize>(ci);
         }
       },
       false);
